@@ -51,6 +51,9 @@ BINARIES = {
     "c19c": ("tsan", ["props/c19_log_conc.cpp"], [],
              ["-Wl,--wrap=pthread_mutex_lock", "-Wl,--wrap=pthread_mutex_unlock",
               "-Wl,--wrap=pthread_mutex_trylock",
+              "-Wl,--wrap=pthread_rwlock_rdlock", "-Wl,--wrap=pthread_rwlock_wrlock",
+              "-Wl,--wrap=pthread_rwlock_tryrdlock", "-Wl,--wrap=pthread_rwlock_trywrlock",
+              "-Wl,--wrap=pthread_rwlock_unlock",
               "-Wl,--wrap=__tsan_atomic32_load", "-Wl,--wrap=__tsan_atomic32_store",
               "-Wl,--wrap=__tsan_atomic32_exchange", "-Wl,--wrap=__tsan_atomic32_fetch_add",
               "-Wl,--wrap=__tsan_atomic32_compare_exchange_strong",
